@@ -6,15 +6,48 @@ use threefish_cipher::{Threefish1024, Threefish256, Threefish512};
 
 pub fn tf_call(size: usize, key: &[u8], t0: u64, t1: u64, zero_tweak_ctor: bool, block: &[u8], decrypt: bool) -> Vec<u8> {
     let mut b = block.to_vec();
+    // the public entry points are rotated with the input (the result must not depend on which one is used):
+    // new / new_from_slice; the cipher itself or a clone; encrypt_block / encrypt_blocks over a 3-block slice / encrypt_par_blocks
+    let how = ((key[0] as u64).wrapping_add(block[0] as u64).wrapping_add(t0) % 6) as usize;
     macro_rules! go {
         ($T:ty) => {{
             let k = GenericArray::from_slice(key);
-            let c = if zero_tweak_ctor { <$T>::new(k) } else { <$T>::with_tweak(k, t0, t1) };
-            let blk = GenericArray::from_mut_slice(&mut b);
-            if decrypt {
-                c.decrypt_block(blk)
+            let c0 = if zero_tweak_ctor {
+                if how % 2 == 0 { <$T>::new(k) } else { <$T as NewBlockCipher>::new_from_slice(key).expect("harness: key length") }
             } else {
-                c.encrypt_block(blk)
+                <$T>::with_tweak(k, t0, t1)
+            };
+            let c = if how >= 3 { c0.clone() } else { c0 };
+            match how % 3 {
+                0 => {
+                    let blk = GenericArray::from_mut_slice(&mut b);
+                    if decrypt {
+                        c.decrypt_block(blk)
+                    } else {
+                        c.encrypt_block(blk)
+                    }
+                }
+                1 => {
+                    // three blocks in one call: a filler, the block, another filler; the middle one is the result
+                    let filler = GenericArray::clone_from_slice(&vec![0x3cu8; size]);
+                    let mut blocks = [filler.clone(), GenericArray::clone_from_slice(&b), filler];
+                    if decrypt {
+                        c.decrypt_blocks(&mut blocks)
+                    } else {
+                        c.encrypt_blocks(&mut blocks)
+                    }
+                    b.copy_from_slice(&blocks[1]);
+                }
+                _ => {
+                    let mut par = GenericArray::<GenericArray<u8, <$T as cipher::BlockCipher>::BlockSize>, <$T as cipher::BlockCipher>::ParBlocks>::default();
+                    par[0] = GenericArray::clone_from_slice(&b);
+                    if decrypt {
+                        c.decrypt_par_blocks(&mut par)
+                    } else {
+                        c.encrypt_par_blocks(&mut par)
+                    }
+                    b.copy_from_slice(&par[0]);
+                }
             }
         }};
     }
